@@ -43,7 +43,6 @@ Oracle calibration (weaker readings taken, see HARNESS_GUIDE soundness policy):
   * the node-side *export* of a struct lacking an optional member IS an obligation: it is a valid value (validate
     returns it) and the node has to be able to send what it accepted.
 """
-import base64
 import json
 import math
 import re
@@ -494,10 +493,8 @@ def client_import(dt, e):
 class Checker:
     def __init__(self, part):
         self.part = part
-        from frappy.errors import RangeError, WrongTypeError
         from frappy.client import CacheItem
         self.CacheItem = CacheItem
-        self.bad_value = (RangeError, WrongTypeError)
 
     def call(self, fn, *args):
         self.part.transitions += 1
